@@ -328,7 +328,7 @@ func runC11History(rc *RunCtx) {
 				return &oracletypes.MsgCreateFeed{Creator: sb, Name: pickS(ownerFeed, ownerFeed, strings.ToUpper(ownerFeed), " "+ownerFeed, ownerFeed+" ", strings.Title(ownerFeed), fmt.Sprintf("new%d", rc.Intn(5)), ob)}
 			}},
 			{"UpdateFeed", 4, sFeed, func() sdk.Msg {
-				return &oracletypes.MsgUpdateFeed{Creator: sb, Name: pickS(ownerFeed, ownerFeed, ownerFeed, strings.ToUpper(ownerFeed), ownerFeed+" ", strangerFeed, "new0", "genesisfeed", "labelfeed", "./"+ownerFeed, "x/../"+ownerFeed), Data: pickS(`{"price":"0"}`, ob, "")}
+				return &oracletypes.MsgUpdateFeed{Creator: sb, Name: pickS(ownerFeed, ownerFeed, ownerFeed, strings.ToUpper(ownerFeed), ownerFeed+" ", strangerFeed, "new0", "genesisfeed", "labelfeed", "./"+ownerFeed, "x/../"+ownerFeed), Data: pickS(`{"price":"0"}`, ob, "", `{"price":"1.23"}`, `{"price":"1.23"}`)} // the last two: the owner's own last update, replayed verbatim
 			}},
 			{"DeleteNotification", 6, sInbox, func() sdk.Msg {
 				return &notiftypes.MsgDeleteNotification{Creator: sb, From: pickS(ob, ob, ob, tb, tb, sb, fb, "../"+ob+"/"+tb, "../"+ob+"/"+tb, "../"+ob+"/"+sb, "./"+tb, ob+"/"+tb, tb+"/../../"+ob+"/"+tb), Time: times[rc.Intn(len(times))]}
